@@ -9,6 +9,8 @@ def run(ctx):
     ctx.tlc_expect_violation("", "NamePool", "MC_NamePool_Recycle.cfg", "reachability: a released id is handed out again (NeverRecycled is refuted)")
     # unbounded in the schedule: an inductive invariant (uniqueness + bookkeeping) proved by Apalache for 4 goroutines / 6 ids
     ctx.apalache_inductive("NamePoolInd", "CInit", "Init", "IndInv")
+    # unbounded in the constants as well: Spec => []Unique for any set of goroutines and any id bound (TLAPS)
+    ctx.tlaps("NamePoolProof")
     t = os.path.join(ctx.scratch, "np.ndjson")
     # GORACE exitcode=0: a race report does not end the driver, so the recorded history is judged by
     # TLC as well; the report itself is an execution the specification has no action for
